@@ -99,11 +99,62 @@ def identities(kind):
     ids.append(('bez2poly_poly1d', pv + ['t'], lambda **kw: bez2poly(mk(kw), return_poly1d=True)(kw['t']),
                 lambda **kw: ref_point(pts(kw), kw['t'])))
     ids.append(('bpoints', pv, lambda **kw: list(mk(kw).bpoints()), lambda **kw: pts(kw)))
+    # through a numpy.poly1d (which drops exactly-zero leading coefficients): the recovered control
+    # points may be fewer, but must describe the same curve
+    ids.append(('poly2bez_of_poly1d', pv + ['t'],
+                lambda **kw: bernstein_eval(list(poly2bez(mk(kw).poly(), return_bpoints=True)), kw['t']),
+                lambda **kw: ref_point(pts(kw), kw['t'])))
     for k in range(1, n + 3):
         ids.append(('derivative_%d' % k, pv + ['t'],
                     (lambda k: lambda **kw: mk(kw).derivative(kw['t'], k))(k),
                     (lambda k: lambda **kw: ref_derivative(pts(kw), kw['t'], k))(k)))
     return ids
+
+
+def special_assignments(n):
+    """control-point assignments on which a value-dependent shortcut would fire (the grid lemma
+    only speaks about polynomial maps): coincident, equally spaced collinear (a degree-elevated
+    line), degree-elevated quadratic, zeros"""
+    G = lambda a, b=0: GQ(Fraction(a), Fraction(b))
+    out = [[G(i, 2 * i) for i in range(n + 1)],                          # elevated line (leading coefficients exactly 0)
+           [G(0)] * (n + 1),
+           [G(3, -1)] * n + [G(5, 2)],
+           [G(3, -1)] + [G(5, 2)] * n]
+    if n == 3:
+        out.append([G(0), G(2, 4), G(4, 4), G(6, 0)])                    # elevated quadratic
+        out.append([G(1), G(1), G(4, 1), G(4, 1)])
+    if n == 2:
+        out.append([G(0), G(2, 1), G(4, 2)])
+    return out
+
+
+def run_special(kind, acc, only=None):
+    cls, n = CLASSES[kind]
+    for name, variables, impl, ref in identities(kind):
+        if only and name != only:
+            continue
+        for ai, pts_ in enumerate(special_assignments(n)):
+            for t in (Fraction(0), Fraction(1, 2), Fraction(1), Fraction(-1, 3)):
+                if 't' not in variables and t != 0:
+                    continue
+                if kind == 'L' and name.startswith('derivative') and pts_[0] == pts_[1]:
+                    continue        # documented precondition of Line.derivative
+                if name == 'poly2bez_of_poly1d' and all(q == pts_[0] for q in pts_):
+                    continue        # a constant polynomial has no Bezier segment of degree 1..3
+                kw = dict(zip(pvars(n), pts_))
+                if 't' in variables:
+                    kw['t'] = t
+                case = {'what': 'special', 'kind': kind, 'identity': name, 'assignment': ai, 't': str(t)}
+                acc.case(case, cls='special/%s' % kind)
+                try:
+                    same = gridproof.eq_exact(impl(**kw), ref(**kw))
+                    err = None
+                except Exception as e:
+                    same, err = False, '%s: %s' % (type(e).__name__, e)
+                if not same:
+                    acc.violation('identity_fails_on_degenerate_input', {'kind': kind, 'identity': name},
+                                  case, observed=err or repr(gridproof.flatten(impl(**kw)))[:300],
+                                  expected=repr(gridproof.flatten(ref(**kw)))[:300])
 
 
 def tier_params(tier, seed):
@@ -119,6 +170,7 @@ def shards(tier, seed):
         for ch in tp['choices']:
             out.append({'what': 'exact', 'kind': kind, 'choice': ch})
         out.append({'what': 'float', 'kind': kind})
+        out.append({'what': 'special', 'kind': kind})
     return out
 
 
@@ -209,6 +261,8 @@ def run_shard(desc, tier, seed):
     acc = core.Acc()
     if desc['what'] == 'exact':
         run_exact(desc['kind'], desc['choice'], acc)
+    elif desc['what'] == 'special':
+        run_special(desc['kind'], acc)
     else:
         run_float(desc['kind'], tier_params(tier, seed)['scales'], acc)
     return acc
@@ -247,6 +301,9 @@ def replay(case):
     acc = core.ReplayAcc()
     if case['what'] == 'exact':
         run_exact(case['kind'], case['choice'], acc, only=case['identity'])
+    elif case['what'] == 'special':
+        run_special(case['kind'], acc, only=case['identity'])
+        acc.vlist = [v for v in acc.vlist if v['case'] == case]
     else:
         run_float(case['kind'], [case['scale']], acc, only=(case['shape'], case['scale']))
     return acc.vlist
